@@ -308,10 +308,107 @@ static void solve_in_place(const Case& cs, Out& out)
     }
 }
 
+// ---- L and U stored in other orderings than A (the policies are separate template parameters) ----
+template<class O>
+struct OtherOrdering;
+template<>
+struct OtherOrdering<micm::SparseMatrixStandardOrderingCompressedSparseRow>
+{
+  using type = micm::SparseMatrixStandardOrderingCompressedSparseColumn;
+};
+template<>
+struct OtherOrdering<micm::SparseMatrixStandardOrderingCompressedSparseColumn>
+{
+  using type = micm::SparseMatrixStandardOrderingCompressedSparseRow;
+};
+template<std::size_t L>
+struct OtherOrdering<micm::SparseMatrixVectorOrderingCompressedSparseRow<L>>
+{
+  using type = micm::SparseMatrixVectorOrderingCompressedSparseColumn<L>;
+};
+template<std::size_t L>
+struct OtherOrdering<micm::SparseMatrixVectorOrderingCompressedSparseColumn<L>>
+{
+  using type = micm::SparseMatrixVectorOrderingCompressedSparseRow<L>;
+};
+
+// factor and solve with A in ordering O, L in the other ordering and U in O (even block counts) or the reverse (odd):
+// implementation oracles only (L*U = A, A x = b)
+template<class SM, class LM, class UM, class DM, class LU>
+static void mixed_storage(const Case& cs, Out& out, bool solve)
+{
+  SM A = build_A<SM>(cs);
+  micm::LinearSolver<SM, LU, LM, UM> solver(A, Zp(0));
+  auto LUm = LU::template GetLUMatrices<SM, LM, UM>(A, Zp(0));
+  for (auto& e : LUm.first.AsVector())
+    e = Zp(424242);
+  for (auto& e : LUm.second.AsVector())
+    e = Zp(535353);
+  solver.Factor(A, LUm.first, LUm.second);
+  bool zero_pivot = false;
+  for (std::size_t b = 0; b < cs.nb; ++b)
+    for (std::size_t i = 0; i < cs.n; ++i)
+      if (get0(LUm.second, b, i, i).v == 0)
+        zero_pivot = true;
+  if (zero_pivot)
+    return;
+  bool lu_ok = true;
+  for (std::size_t b = 0; b < cs.nb && lu_ok; ++b)
+    for (std::size_t i = 0; i < cs.n && lu_ok; ++i)
+      for (std::size_t j = 0; j < cs.n && lu_ok; ++j)
+      {
+        Zp sum(0);
+        for (std::size_t k = 0; k < cs.n; ++k)
+          sum += get0(LUm.first, b, i, k) * get0(LUm.second, b, k, j);
+        if (sum != get0(A, b, i, j))
+          lu_ok = false;
+      }
+  if (!lu_ok)
+    out.tok("ORACLE_LU_NE_A:factors_stored_in_another_ordering");
+  if (solve)
+  {
+    DM x(cs.nb, cs.n, Zp(0));
+    for (std::size_t b = 0; b < cs.nb; ++b)
+      for (std::size_t i = 0; i < cs.n; ++i)
+        x[b][i] = Zp(cs.rhs[b * cs.n + i]);
+    solver.template Solve<DM>(x, LUm.first, LUm.second);
+    bool ok = true;
+    for (std::size_t b = 0; b < cs.nb && ok; ++b)
+      for (std::size_t i = 0; i < cs.n && ok; ++i)
+      {
+        Zp sum(0);
+        for (std::size_t j = 0; j < cs.n; ++j)
+          sum += get0(A, b, i, j) * (Zp)x[b][j];
+        if (sum != Zp(cs.rhs[b * cs.n + i]))
+          ok = false;
+      }
+    if (!ok)
+      out.tok("ORACLE_AX_NE_B:factors_stored_in_another_ordering");
+  }
+}
+
 template<class Ordering, class DM>
 static void dispatch_alg(const Case& cs, Out& out, bool solve)
 {
   using SM = micm::SparseMatrix<Zp, Ordering>;
+  if (cs.alg < 2)
+  {
+    using OM = micm::SparseMatrix<Zp, typename OtherOrdering<Ordering>::type>;
+    if (cs.alg == 0)
+    {
+      if (cs.nb % 2 == 0)
+        mixed_storage<SM, OM, SM, DM, micm::LuDecompositionDoolittle>(cs, out, solve);
+      else
+        mixed_storage<SM, SM, OM, DM, micm::LuDecompositionDoolittle>(cs, out, solve);
+    }
+    else
+    {
+      if (cs.nb % 2 == 0)
+        mixed_storage<SM, OM, SM, DM, micm::LuDecompositionMozart>(cs, out, solve);
+      else
+        mixed_storage<SM, SM, OM, DM, micm::LuDecompositionMozart>(cs, out, solve);
+    }
+  }
   if (!solve)
   {
     switch (cs.alg)
